@@ -245,3 +245,59 @@ extern "C" void h_brokers(void) {
   vk_assert(!vk::pending_resolve(), "more brokers tried than listed before the pause");
   vk_reach(n == 2 ? "two-hosts" : "one-host");
 }
+
+// ---- C10: the AUTH exchange of a configured authenticator is the only traffic allowed before CONNACK
+struct vk_authenticator {
+  uint8_t d_init, d_reply; bool fail_at_challenge;
+  template <typename CompletionToken>
+  decltype(auto) async_auth(auth_step_e step, std::string data, CompletionToken&& token) {
+    using Signature = void (error_code, std::string);
+    auto initiate = [this](auto handler, auth_step_e step, std::string) {
+      error_code ec; std::string out;
+      if (step == auth_step_e::client_initial) out = std::string(1, (char)d_init);
+      else if (step == auth_step_e::server_challenge) { out = std::string(1, (char)d_reply); if (fail_at_challenge) ec = asio::error::no_recovery; }
+      asio::post(vk::executor{}, asio::prepend(std::move(handler), ec, out));
+    };
+    return asio::async_initiate<CompletionToken, Signature>(initiate, token, step, std::move(data));
+  }
+  std::string_view method() const { return "m"; }
+};
+extern "C" void h_auth_handshake(void) {
+  X* x = new X(); W& w = x->w;
+  uint8_t d_init = vk_sym_u8(), d_reply = vk_sym_u8(), d_chal = vk_sym_u8(); bool fail = vk_choose(2);
+  w.c.authenticator(vk_authenticator{d_init, d_reply, fail});
+  w.c.brokers("a", 1883);
+  w.in_api = true; w.c.async_run([&w](error_code ec) { w.run_done++; }); w.in_api = false; vk::drain();
+  int q = w.publish<qos_e::at_most_once>("t", "Q"); vk::drain();
+  bool ok = w.establish(); vk_assert(ok, "first connection");
+  // CONNECT carries Authentication Method "m" and the authenticator's initial data
+  { ref::packet k; bool r = w.redecode(w.pk[w.npk - 1], k); vk_assert(r && k.type == ref::CONNECT, "CONNECT first");
+    const ref::prop_t* m = k.props.find(0x15); const ref::prop_t* d = k.props.find(0x16);
+    vk_assert(m && m->a.n == 1 && m->a.p[0] == 'm' && d && d->a.n == 1 && d->a.p[0] == d_init, "CONNECT does not carry the authenticator's method and initial data"); }
+  int scenario = (int)vk_choose(3);
+  if (scenario <= 1) {
+    // broker continues the authentication: AUTH 0x18 with the method (scenario 1: a different method -> malformed)
+    uint8_t b[12]; ref::wr bw = {b, sizeof b, 0, false}; bw.u8(0x18); uint8_t pr[8]; ref::wr pw = {pr, sizeof pr, 0, false};
+    uint8_t meth = scenario == 0 ? 'm' : 'x'; ref::p_str(pw, 0x15, &meth, 1); ref::p_str(pw, 0x16, &d_chal, 1); bw.varint((uint32_t)pw.n); bw.bytes(pr, pw.n);
+    ref::wr o = w.outw(); ref::frame(o, ref::AUTH, 0, b, bw.n); w.commit(o); w.connack_sent = true; w.feed_all(); vk::drain(); w.connack_sent = false;
+    if (scenario == 0 && !fail) {
+      vk::sock_rec* s = vk::pending_write(); vk_assert(s != nullptr, "no AUTH reply to the broker's challenge");
+      int b0 = w.npk; w.finish_write(s, s->wdata.size(), {}); vk::drain();
+      ref::packet k; bool r = w.redecode(w.pk[b0], k); vk_assert(w.npk == b0 + 1 && r && k.type == ref::AUTH && k.rc == 0x18, "the reply to the challenge is not exactly one AUTH (continue authentication)");
+      const ref::prop_t* d = k.props.find(0x16); vk_assert(d && d->a.n == 1 && d->a.p[0] == d_reply, "AUTH does not carry the authenticator's answer");
+      vk_assert(!w.ops[q].done, "a queued request completed during the AUTH exchange");
+      w.send_connack(false, 0, nullptr, 0); w.feed_all(); vk::drain();
+      vk::sock_rec* s2 = vk::pending_write(); vk_assert(s2 != nullptr, "queued PUBLISH not written after the authenticated CONNACK");
+      int b1 = w.npk; w.finish_write(s2, s2->wdata.size(), {}); vk::drain(); vk_assert(w.pk[b1].type == ref::PUBLISH && w.ops[q].done == 1, "queued PUBLISH completes after the authenticated CONNACK");
+      vk_reach("authenticated");
+    } else {
+      // mismatching method or failing authenticator: the attempt is abandoned, nothing else written, the request stays queued
+      if (auto* s = vk::pending_write()) { ref::packet k; int rv = ref::decode((const uint8_t*)s->wdata.data(), s->wdata.size(), k); vk_assert(rv == ref::OK && k.type != ref::PUBLISH && k.type != ref::AUTH, "traffic written although the AUTH exchange failed"); }
+      vk_assert(!w.ops[q].done, "a queued request completed although the AUTH exchange failed"); vk_reach("auth-abandoned");
+    }
+  } else {
+    w.send_connack(false, 0, nullptr, 0); w.feed_all(); vk::drain();
+    vk::sock_rec* s2 = vk::pending_write(); vk_assert(s2 != nullptr, "queued PUBLISH not written after CONNACK");
+    vk_reach("connack-without-challenge");
+  }
+}
